@@ -393,10 +393,10 @@ def unit_roundtrip_gff3(U):
              % (len(dialects), len(ATOMS_G), "4" if U.thorough else "3", len(cp_dialects) if U.thorough else 1, reps, N))
     U.bounded_result("C08.bounded.roundtrip_gff3",
                      "str(Feature(cols, mapping, extra, dialect D)) is one line of exactly 9 + len(extra) tab-separated columns and feature_from_line(it, dialect=D) returns the same columns, extras and mapping (gff3-style D, arbitrary Unicode values); mapping and dialect are not modified",
-                     scope, acc.cases, acc.rt, distinct=len(acc.distinct))
+                     scope, acc.cases, acc.rt, distinct=len(acc.distinct), sample={"failing_cases": acc.nrt})
     U.bounded_result("C08.bounded.print_enc_gff3",
                      "the printed attribute column equals enc(mapping, D) of DESIGN Appendix A.3 (upper-case %XX for exactly the reserved characters, nothing else touched)",
-                     scope, acc.cases, acc.enc, distinct=len(acc.distinct))
+                     scope, acc.cases, acc.enc, distinct=len(acc.distinct), sample={"failing_cases": acc.nenc})
 
 
 # ------------------------------------------------------------------------------------------------
@@ -506,10 +506,10 @@ def unit_roundtrip_gtf(U):
              "4 column sets, 0-3 extra columns, keep_order on/off, dict/Attributes/JSON construction" % (len(dialects), len(atoms), L, reps, N))
     U.bounded_result("C08.bounded.roundtrip_gtf",
                      "str(Feature(cols, mapping, extra, dialect D)) is one line of exactly 9 + len(extra) tab-separated columns and feature_from_line(it, dialect=D) returns the same columns, extras and mapping (gtf-style D, values free of ; \" , and control characters)",
-                     scope, acc.cases, acc.rt, distinct=len(acc.distinct))
+                     scope, acc.cases, acc.rt, distinct=len(acc.distinct), sample={"failing_cases": acc.nrt})
     U.bounded_result("C08.bounded.print_enc_gtf",
                      "the printed attribute column equals enc(mapping, D) of DESIGN Appendix A.3 (no escaping for fmt gtf)",
-                     scope, acc.cases, acc.enc, distinct=len(acc.distinct))
+                     scope, acc.cases, acc.enc, distinct=len(acc.distinct), sample={"failing_cases": acc.nenc})
 
     # ---- deviations of the pinned tree: inside the statement as written, kept out of the main result
     # (1) unquoted gtf-style dialect, value ending in (non-control) white space: p.strip() eats it
@@ -525,7 +525,7 @@ def unit_roundtrip_gtf(U):
     U.bounded_result("C08.bounded.gtf_unquoted_trailing_blank",
                      "as C08.bounded.roundtrip_gtf, for unquoted gtf-style dialects and values that END in a white-space character that is not a control character (space, U+00A0, U+2028, U+3000, ...)",
                      "12 unquoted dialects (fmt gtf, keyval separator ' ') x %d such values x 3 shapes" % len([v for v in ATOMS_T_BLANK_END if v != v.rstrip()]),
-                     dev.cases, dev.rt, distinct=len(dev.distinct))
+                     dev.cases, dev.rt, distinct=len(dev.distinct), sample={"failing_cases": dev.nrt})
 
     # (2) fmt gtf with '=' as keyval separator, value containing '=': the pieces are re-joined with ' '
     dev = Acc()
@@ -535,7 +535,7 @@ def unit_roundtrip_gtf(U):
                 dev.run(attrs, D, want_enc=False)
     U.bounded_result("C08.bounded.gtf_equals_separator",
                      "as C08.bounded.roundtrip_gtf, for dialects with fmt 'gtf' and keyval separator '=' and values containing '='",
-                     "24 dialects x 8 values x 2 shapes", dev.cases, dev.rt, distinct=len(dev.distinct))
+                     "24 dialects x 8 values x 2 shapes", dev.cases, dev.rt, distinct=len(dev.distinct), sample={"failing_cases": dev.nrt})
 
     # (3) gtf dialect with 'leading semicolon' set (the library infers it from  a "1"; ;b "2"): the
     #     writer never emits the semicolon, the reader drops the first character of the first key
@@ -556,7 +556,7 @@ def unit_roundtrip_gtf(U):
     U.bounded_result("C08.bounded.gtf_leading_semicolon",
                      "as C08.bounded.roundtrip_gtf, for gtf-style dialect dictionaries whose 'leading semicolon' entry is True",
                      "%d dictionaries inferred by the library from lines with misplaced semicolons + 24 supplied ones x 3 plain mappings" % n_inferred,
-                     dev.cases, dev.rt, distinct=len(dev.distinct))
+                     dev.cases, dev.rt, distinct=len(dev.distinct), sample={"failing_cases": dev.nrt})
 
 
 # ------------------------------------------------------------------------------------------------
@@ -664,7 +664,7 @@ def unit_parse_total(U):
     U.bounded_result("C08.bounded.parse_total_inferred",
                      "_split_keyvals(s) / feature_from_line(eight columns + s) with the dialect inferred: no exception, keys are str, values are lists of str, a dialect dictionary with the nine keys comes back, constants.dialect is not modified",
                      "every string of length <= %d over the structural alphabet {; = space \" , %% a 2 5} through _split_keyvals, of length <= %d through feature_from_line; %d + %d random strings of length 6-40 (structural, wide incl. tab/newline/controls/non-BMP/lone surrogate, arbitrary code points)" % (L, Lline, N, N // 4),
-                     counter[0], fails, exhaustive=False)
+                     counter[0], fails, exhaustive=False, sample={"failing_cases": counter[1]})
 
     # ---- the Feature(attributes=<raw string>) path (feature.py: JSON first, raw attribute string otherwise)
     fails, cases = [], 0
@@ -684,7 +684,7 @@ def unit_parse_total(U):
     U.bounded_result("C08.bounded.ctor_raw_string",
                      "Feature(attributes=s) for a raw attribute-column string s: no exception, keys are str, values are lists of str",
                      "every string of length <= %d over the structural alphabet {; = space \" , %% a 2 5}" % Lc,
-                     cases, fails, exhaustive=True)
+                     cases, fails, exhaustive=True, sample={"failing_cases": nfail})
 
 
 def supplied_dialects():
@@ -710,8 +710,11 @@ def unit_parse_supplied(U):
     fails, counter = [], [0, 0]
     L = 5 if U.thorough else 4
     strings = list(all_strings(STRUCT, L))
-    for D, Dc in zip(every, copies):
-        for s in strings:
+    short = list(all_strings(STRUCT, L - 1))
+    n_main = len(main)
+    for j, (D, Dc) in enumerate(zip(every, copies)):
+        # the unusual-separator dictionaries get one letter less
+        for s in (short if n_main <= j < n_main + len(odd) else strings):
             total_split(s, D, Dc, fails, counter)
     # one more letter for the dictionaries whose parse differs (the reader ignores 'repeated keys')
     if U.thorough:
@@ -722,12 +725,14 @@ def unit_parse_supplied(U):
     else:
         sub = [(D, Dc) for D, Dc in zip(main, copies) if not D["repeated keys"] and not D["leading semicolon"]]
         for idx, s in enumerate(all_strings(STRUCT, 5, 5)):
-            for j in range(4):
-                D, Dc = sub[(idx * 4 + j) % len(sub)]
+            for j in range(2):
+                D, Dc = sub[(idx * 2 + j) % len(sub)]
                 total_split(s, D, Dc, fails, counter)
     Lline = 4 if U.thorough else 3
     for s in all_strings(STRUCT, Lline):
         for D, Dc in zip(main, copies):
+            if D["repeated keys"] and not U.thorough:
+                continue
             total_line(s, D, Dc, fails, counter)
             if D != Dc:
                 D.clear()
@@ -741,9 +746,9 @@ def unit_parse_supplied(U):
             total_line(rand_attr_string(rng, True), every[j], copies[j], fails, counter)
     U.bounded_result("C08.bounded.parse_total_supplied",
                      "_split_keyvals(s, D) / feature_from_line(eight columns + s, dialect=D) with a supplied dialect dictionary D: no exception, keys are str, values are lists of str, D is not modified",
-                     "%d dialect dictionaries (fmt x keyval separator x quoting x 3 field separators x trailing x repeated x leading semicolon = 192, %d with unusual separators, %d inferred by the library) x every string of length <= %d over {; = space \" , %% a 2 5}; length %d under %s; length <= %d through feature_from_line under the 192; %d random strings of length 6-40"
-                     % (len(every), len(odd), len(inferred), L, L + 1, "the %d dictionaries with distinct reader behaviour" % len(sub) if U.thorough else "4 rotating dictionaries per string", Lline, N),
-                     counter[0], fails, exhaustive=False)
+                     "%d dialect dictionaries (fmt x keyval separator x quoting x 3 field separators x trailing x repeated x leading semicolon = 192, %d with unusual separators, %d inferred by the library) x every string of length <= %d over {; = space \" , %% a 2 5} (one letter less for the unusual ones); length %d under %s; length <= %d through feature_from_line under the 192; %d random strings of length 6-40"
+                     % (len(every), len(odd), len(inferred), L, L + 1, "the %d dictionaries with distinct reader behaviour" % len(sub) if U.thorough else "2 rotating dictionaries per string", Lline, N),
+                     counter[0], fails, exhaustive=False, sample={"failing_cases": counter[1]})
 
 
 UNITS = [
